@@ -150,6 +150,7 @@ func (g *Gen) Next(t *rapid.T) *Op {
 	add("read", true)
 	add("dumpLoad", !locked)
 	add("gc", true)
+	add("batchCall", nTyped > 0)
 	maxTypes := MaskBits + 1 // one attempt beyond the maximum is generated (must be rejected)
 	if g.P.MaxFill > 0 {
 		maxTypes = g.P.MaxFill + comps.N // histories that must stay within the 64-bit mask (C20)
@@ -257,6 +258,8 @@ func (g *Gen) Next(t *rapid.T) *Op {
 		op = &Op{K: "dump"}
 	case "loadSaved":
 		op = &Op{K: "loadSaved"}
+	case "batchCall":
+		op = g.genBatchCall(t)
 	case "register":
 		op = &Op{K: "register"}
 	case "gc":
@@ -265,6 +268,20 @@ func (g *Gen) Next(t *rapid.T) *Op {
 		op = &Op{K: "dumpLoad", Mode: rapid.IntRange(0, 1).Draw(t, "dumpFresh")}
 	case "qOpen":
 		op = g.genQuery(t)
+		if rapid.Bool().Draw(t, "sameFilterAgain") {
+			// another query of a filter that already has an open one, with its own per-query targets
+			var open []int
+			for _, q := range m.Open {
+				if !q.done && !m.Filters[q.filter].Stale {
+					open = append(open, q.filter)
+				}
+			}
+			sortInts(open)
+			if len(open) > 0 {
+				fi := rapid.SampledFrom(open).Draw(t, "openFilter")
+				op = &Op{K: "query", F: fi, QRels: g.qrels(t, m.Filters[fi])}
+			}
+		}
 		if g.P.Burst && rapid.IntRange(0, 9).Draw(t, "burst") == 0 {
 			g.burst = rapid.IntRange(10, 70).Draw(t, "burstLen")
 		}
@@ -849,7 +866,7 @@ func (g *Gen) qrels(t *rapid.T, f *FilterSpec) []RelSpec {
 	}
 	m := g.m()
 	for _, c := range listOf(f.Mask() & comps.RelMask &^ fixed) {
-		if rapid.IntRange(0, 2).Draw(t, "qrel") != 0 {
+		if rapid.IntRange(0, 1).Draw(t, "qrel") != 0 {
 			continue
 		}
 		// prefer targets actually in use
@@ -1357,4 +1374,32 @@ func (g *Gen) genScenario(t *rapid.T) *Op {
 	}
 	g.queue = q[1:]
 	return q[0]
+}
+
+// genBatchCall draws a Filter.Batch(rel...) call whose result is discarded.
+func (g *Gen) genBatchCall(t *rapid.T) *Op {
+	m := g.m()
+	var l, lr []int
+	for i, f := range m.Filters {
+		if f.Inst >= 0 && !f.Stale {
+			l = append(l, i)
+			if f.Mask()&comps.RelMask != 0 {
+				lr = append(lr, i)
+			}
+		}
+	}
+	if len(lr) > 0 {
+		l = lr
+	}
+	fi := rapid.SampledFrom(l).Draw(t, "filter")
+	f := m.Filters[fi]
+	op := &Op{K: "batchCall", F: fi}
+	fixed := uint16(0)
+	for _, r := range f.Rels {
+		fixed |= 1 << uint(r.C)
+	}
+	for _, c := range listOf(f.Mask() & comps.RelMask &^ fixed) {
+		op.QRels = append(op.QRels, RelSpec{C: c, T: g.pickTarget(t), S: rapid.IntRange(0, 2).Draw(t, "relStyle")})
+	}
+	return op
 }
